@@ -125,7 +125,7 @@ def corpus():
 
 
 def check(run: Run, lean: dict) -> int:
-    n = 400 if run.tier == "quick" else 8000
+    n = run.budget(400, 8000)
     run.extra["rule"] = (
         "random Legal edit histories (8-20 calls) over 12 seed documents: add_following/preceding_siblings, "
         "append/insert_children, detach (with/without retain_child_nodes), replace_with, del node[i], text content "
